@@ -738,6 +738,12 @@ static void l_exec(const plan_t *p)
         }
         case D_CONCAT: {
             int si; struct mlist *sm;
+            if ((o->a[2] >> 8) % 16 == 5) {
+                /* a list concatenated with itself: the pinned code checks for it and leaves the list alone */
+                TRY(cstl_dlist_concat(D, D)); check_noabort(m, 1);
+                PROBE("self_concat"); EVT("d_concat_self", li, 0, 0);
+                break;
+            }
             if (nd < 2) { EVT("skip", 0, 0, 0); break; }
             si = (int)(o->a[2] % (uint64_t)nd);
             if (si == li) si = (li + 1) % nd;
@@ -927,6 +933,9 @@ static void l_exec(const plan_t *p)
         }
         case S_CONCAT: {
             int si; struct mlist *sm;
+            /* (no self-concat here: cstl_slist_concat(l, l) has no guard in the pinned tree and empties the list - unlike
+             * the dlist, which checks d != s. What "concatenate a list with itself" should do is stated nowhere, so it is
+             * outside the domain for the slist and inside it, as a no-op, for the dlist) */
             if (ns < 2) { EVT("skip", 0, 0, 0); break; }
             si = (int)(o->a[2] % (uint64_t)ns);
             if (si == li) si = (li + 1) % ns;
